@@ -256,7 +256,8 @@ def execute(case):
         target = impl = None
         if kind == 'subst':
             cand = [n for n in c.nodes if n.kind != '__fork__' and n.kind not in tlib.cells and not refmodels.is_state(n) and n.kind.lower() not in ('input', 'output')
-                    and refmodels.prim_of(n.kind) is not None and not any(n is x for x in c.io_nodes)]
+                    and refmodels.prim_of(n.kind) is not None and not any(n is x for x in c.io_nodes)
+                    and not any(x.name.startswith(n.name + '~') for x in c.nodes)]   # an instance name is expanded only once (name clash otherwise)
             if not cand: continue
             target = cand[st[1] % len(cand)]
             uid += 1
@@ -303,9 +304,18 @@ def execute(case):
             res.notes['names_added_kinds'] = [kinds0.get(x, '?') for x in added]
             res.notes['names_removed'] = removed
             res.notes['order_kept'] = [x for x in names1 if x in names0] == [x for x in names0 if x in names1]
+            n_io0 = len(c.io_nodes)
+            res.notes['step_kind'] = kind
+            res.notes['ports_same'] = names0[:n_io0] == names1[:n_io0]
+            res.notes['state_elements_permuted'] = sorted(names0[n_io0:]) == sorted(names1[n_io0:]) and names0[n_io0:] != names1[n_io0:]
             res.violate('s-nodes-changed', f'step {k} ({did}): ports/state elements before {names0[:10]} after {names1[:10]} (added {added[:4]}, removed {removed[:4]})')
             return res
-        _n1, tab1 = table(c, [tlib], {})
+        if not graphsim.check_invariants(c, res, k, did): return res     # a structurally corrupt graph has no function
+        try:
+            _n1, tab1 = table(c, [tlib], {})
+        except (ValueError, KeyError, AttributeError, IndexError, TypeError) as ex:
+            res.violate('function-undefined-after-step', f'step {k} ({did}): the transformed circuit cannot be evaluated by the reference evaluator: {type(ex).__name__}: {ex}')
+            return res
         for name in names0:
             if tab0[name] != tab1[name]:
                 diff = tab0[name] ^ tab1[name]
@@ -320,6 +330,8 @@ def finding_key(case, res, kind):
         added = res.notes.get('names_added_kinds') or []
         if added and not res.notes.get('names_removed') and res.notes.get('order_kept') and all(any(k.startswith(h) for h in HIDDEN_LATCH) for k in added):
             return 'F9i-latch-cell-without-latch-in-its-name'
+        if res.notes.get('ports_same') and res.notes.get('state_elements_permuted') and res.notes.get('step_kind') in ('elim', 'resolve', 'subst'):
+            return 'F14-node-removal-permutes-state-element-order'
     return None
 
 
